@@ -73,26 +73,26 @@ CHECKS = {
 
 # what later strengthening rounds added (the evidence file's `rule` carries the full description)
 ADDED = {
- "C01": "Later additions: names with a string-prefix pair, special-bit modes, a read-handle session compared with std::io::Cursor inside the read call form. The copy rule for a source link whose place at the destination is taken by a file or link (refused, or duplicated faithfully). Every sequence of 3 calls (thorough: a sample of those of 4) over a 67-form alphabet after 3 seed prefixes (history sweep: hidden bookkeeping one call leaves for the next). Invariant on every executed chmod: no link's own permission word changes. The history sweep runs with HOME removed from the environment.",
- "C02": "Later additions: every two-path call followed by reads of both paths, symbolic chmod with follow, read-handle sessions, a privilege-dropped worker (euid 65534) for a sample of the sweep. A recursive listing from the case root after every mutating call, refused ones included. Write/append handles opened and dropped untouched in the call alphabet. Link targets spelled relative to the link's directory in the two-path alphabet, with kind queries on the new link.",
- "C03": "Later additions: persistent write/append handles in the histories; every (1,1) two-thread program over the C04 alphabet from two seed states, all interleavings, judged at quiescence. The same history sweep with the tree invariants as oracle.",
- "C04": "Later additions: half of the programs run through the Vfs wrapper; every rich call form as a one-thread program (nested-guard detection); listed call forms racing 8 mutators; relative forms racing cwd changes; attribute queries racing replacing moves/chown/chmod; handle sessions racing replacers of their file. Uncontrolled rounds in which handles are dropped or flushed while other threads keep the lock busy (a write-back that gives up under contention loses data). Handle stress includes a write handle over existing content of the same length. Line helpers (append_lines / write_lines / append_line) as single steps in the alphabet; uncontrolled rounds are registered with the watchdog (a dead-locked round is reported, not waited for). Programs on a directory of 650 entries (one call vs an observer); Display / Debug rendering among the bystander queries under load.",
- "C05": "Later additions: cwd entered through a symlink; chmod_b/chown_b executed after a later set_cwd; Stdfs::abs from a child process whose cwd was deleted.",
- "C06": "Later additions: persistent handles across steps; every program of length 5/6 over several append writers of one Stdfs file. Copies and moves from a missing source must leave every file's content alone. Multi-kilobyte valid text of 1-4 byte characters at every alignment. Writing calls addressed to a symlink that points at one of the files (also while it dangles). Persistent Memfs handles opened through a cwd-relative spelling with the cwd moving on right after. Content that begins with a byte order mark.",
- "C07": "Later additions: write preludes (file moved / copied / moved then copied) with a bystander check; several append writers on Stdfs. The handle is opened through unclean spellings of the file's path. Memfs handles opened through a cwd-relative spelling with a cwd change while open. read_exact steps in the read scripts; handles dropped while their thread unwinds from a panic.",
- "C08": "Later additions: a fourth hand-made tree (link chains, dangling link between directories; reference typed per backend); chains ending in an empty directory beyond the descriptor cap. Contradictory kind filters set in sequence (the last call decides). Component-wise name order of every listing helper.",
- "C09": "Later additions: two chmod options on one builder; a seeded sample of the cases also through Stdfs on a tmpfs copy of the tree (same predicates). Umask-sensitive directory modes (group/other write bits) in trees and options; placement rule for a following copy of a link to a link-free directory. A following copy over a link that leads back to an ancestor inside the source must not report success. Three moves across a mount point on Stdfs (skipped where no second writable device exists).",
- "C10": "Later additions: positions over a prefix-pair alphabet; recursive chmod/chown of the link's directory; non-recursive chown_b; clone of a followed entry. Re-creating an existing link through unclean spellings of its path. chown of a link to the owner its target already has (lstat as observer). Links whose targets lie under other top-level directories or are missing names longer than a file name may be.",
- "C11": "Later additions: corrupted first clause followed by a well-formed tail; octal values 0..=0o7777 on both backends; two hand-made trees x every path x every builder option combination. The hand-made trees x options also on Stdfs against the Memfs twin. Octal modes and a symbolic expression on one builder, in both orders. A malformed first clause must be reported for links too; a directed tree with a chain of links (Memfs vs Stdfs).",
- "C12": "Later additions: every program of length 4/5 over handles that outlive their file; every call form on a 60-level chain ending in an empty directory; characters whose lower-case form changes byte length; watchdog rule for blocked (dead-locked) calls. Every call form and recursive chmod_b variants on a bushy tree (several non-empty sub-directories per directory). Two links into each other's directory in the bushy tree; a panic during unwinding (imminent abort) is reported from the panic hook. Rounds in which one thread renders the instance while another keeps changing it.",
- "C13": "Later additions: wrapper vs unwrapped entry after every follow chain; the matrix on Stdfs vs Vfs::Stdfs twins incl. every handle program of length 4/5; builders executed after a cwd change; files with asymmetric permission classes. A third way for the Stdfs matrix: the associated functions Stdfs::<name> through a delegating adapter; builders split into creation and exec. The history sweep executed the four Memfs ways. Sticky / set-uid modes in the call alphabet; scenario siblings whose byte order differs from name order. The three Stdfs ways also agree on which error a call reports. set_cwd the three Stdfs ways in a child process, also onto a cwd reached through a link. The Stdfs twin parts run under umask 027; a read handle kept open across a rewrite, three ways.",
- "C14": "Later additions: every non-UTF-8 byte string over a 5-byte alphabet up to length 6/7. Deep inputs (200-1000 components) and scheme-, home- and variable-looking prefixes.",
- "C19": "Later additions: the ends of the index type (isize::MIN/MAX and neighbours) for slice and drop. consume() on iterators whose size hint is not exact. take_while_p with a predicate that carries state, driven item by item and through fold. take_while_p over sources too long to collect whole.",
- "C15": "Later additions: dir() of a path without a parent (the root in any spelling) fails. Scheme look-alikes whose case mappings collide with a scheme; colon lists with white space at entry ends.",
- "C16": "Later additions: names with '~' and '$', case-variant names, non-UTF-8 names, paths that exist on disk behind a symlink.",
- "C17": "Later additions: sequences of four environments inside one process; a variable whose value is not valid UTF-8. The home symbol at every position of absolute, relative and variable-led templates. Memfs::abs and Stdfs::abs refuse what expand() refuses and expand '~' before cleaning. Doubled separators right after the home symbol.",
- "C18": "Later additions: list entries '/', trailing separators, repeated entries; multi-component config names; ids above 2^31; bystander variables (TMPDIR ...). List entries with leading, trailing and only blanks (listed verbatim). A relative candidate directory looked up from a Memfs cwd below the root, with a namesake below the root. getrids also asked from a child process that gave up root.",
- "C20": "Later additions: hand-made create/remove/recreate and dangling-link states also on Stdfs; line-terminator near misses; where a new link points; feasibility rules for creating and removing macros. Unclean absolute spellings ('zz/..' detours) as macro arguments. Directed state with directories whose mode differs from the requested one only above the rwx triplets. A directed state with files whose bytes are not text. The path argument is an expression whose second evaluation would name a path of the opposite existence.",
+ "C01": "Later additions: names with a string-prefix pair, special-bit modes, a read-handle session compared with std::io::Cursor inside the read call form. The copy rule for a source link whose place at the destination is taken by a file or link (refused, or duplicated faithfully). Every sequence of 3 calls (thorough: a sample of those of 4) over a 67-form alphabet after 3 seed prefixes (history sweep: hidden bookkeeping one call leaves for the next). Invariant on every executed chmod: no link's own permission word changes. The history sweep runs with HOME removed from the environment. Creating calls with path arguments that are not valid UTF-8 (Latin-1 names from bytes): a reported failure leaves the complete state as it was.",
+ "C02": "Later additions: every two-path call followed by reads of both paths, symbolic chmod with follow, read-handle sessions, a privilege-dropped worker (euid 65534) for a sample of the sweep. A recursive listing from the case root after every mutating call, refused ones included. Write/append handles opened and dropped untouched in the call alphabet. Link targets spelled relative to the link's directory in the two-path alphabet, with kind queries on the new link. Line helpers given empty lines.",
+ "C03": "Later additions: persistent write/append handles in the histories; every (1,1) two-thread program over the C04 alphabet from two seed states, all interleavings, judged at quiescence. The same history sweep with the tree invariants as oracle. Creating, moving and removing calls with path arguments that are not valid UTF-8, after every seed prefix: the tree invariants still hold.",
+ "C04": "Later additions: half of the programs run through the Vfs wrapper; every rich call form as a one-thread program (nested-guard detection); listed call forms racing 8 mutators; relative forms racing cwd changes; attribute queries racing replacing moves/chown/chmod; handle sessions racing replacers of their file. Uncontrolled rounds in which handles are dropped or flushed while other threads keep the lock busy (a write-back that gives up under contention loses data). Handle stress includes a write handle over existing content of the same length. Line helpers (append_lines / write_lines / append_line) as single steps in the alphabet; uncontrolled rounds are registered with the watchdog (a dead-locked round is reported, not waited for). Programs on a directory of 650 entries (one call vs an observer); Display / Debug rendering among the bystander queries under load. A write_all of more than a mebibyte racing every pair of calls that replace its file (all interleavings, linearizable); a multi-kilobyte write in the alphabet; relative paths above the cwd in the discovery alphabet.",
+ "C05": "Later additions: cwd entered through a symlink; chmod_b/chown_b executed after a later set_cwd; Stdfs::abs from a child process whose cwd was deleted. Stdfs::abs of relative arguments from a child process whose cwd has a name that is not valid UTF-8.",
+ "C06": "Later additions: persistent handles across steps; every program of length 5/6 over several append writers of one Stdfs file. Copies and moves from a missing source must leave every file's content alone. Multi-kilobyte valid text of 1-4 byte characters at every alignment. Writing calls addressed to a symlink that points at one of the files (also while it dangles). Persistent Memfs handles opened through a cwd-relative spelling with the cwd moving on right after. Content that begins with a byte order mark. A Stdfs copy onto a destination of equal length stamped up to a day newer or older than the source still duplicates the content; read_all / read_lines / read of pseudo files whose reported size is not their length agree with std::fs.",
+ "C07": "Later additions: write preludes (file moved / copied / moved then copied) with a bystander check; several append writers on Stdfs. The handle is opened through unclean spellings of the file's path. Memfs handles opened through a cwd-relative spelling with a cwd change while open. read_exact steps in the read scripts; handles dropped while their thread unwinds from a panic. read_to_end into buffers that already hold bytes.",
+ "C08": "Later additions: a fourth hand-made tree (link chains, dangling link between directories; reference typed per backend); chains ending in an empty directory beyond the descriptor cap. Contradictory kind filters set in sequence (the last call decides). Component-wise name order of every listing helper. A consumer that removes a sibling not handed out yet between two next() calls: every entry present throughout is still yielded exactly once (both backends, sorted and unsorted).",
+ "C09": "Later additions: two chmod options on one builder; a seeded sample of the cases also through Stdfs on a tmpfs copy of the tree (same predicates). Umask-sensitive directory modes (group/other write bits) in trees and options; placement rule for a following copy of a link to a link-free directory. A following copy over a link that leads back to an ancestor inside the source must not report success. Three moves across a mount point on Stdfs (skipped where no second writable device exists). Sticky-bit directories in the source tree; the same Copier executed twice and a Copier executed after its destination became a directory, Memfs vs Stdfs.",
+ "C10": "Later additions: positions over a prefix-pair alphabet; recursive chmod/chown of the link's directory; non-recursive chown_b; clone of a followed entry. Re-creating an existing link through unclean spellings of its path. chown of a link to the owner its target already has (lstat as observer). Links whose targets lie under other top-level directories or are missing names longer than a file name may be. Link targets that are neither directory nor regular file (a unix socket, the null device, any block device found): neither is_symlink_dir nor is_symlink_file, entry kind neither.",
+ "C11": "Later additions: corrupted first clause followed by a well-formed tail; octal values 0..=0o7777 on both backends; two hand-made trees x every path x every builder option combination. The hand-made trees x options also on Stdfs against the Memfs twin. Octal modes and a symbolic expression on one builder, in both orders. A malformed first clause must be reported for links too; a directed tree with a chain of links (Memfs vs Stdfs). Symbolic clauses applied to modes carrying set-uid / set-gid / sticky bits; follow through chains of exactly 1, 2, 39 and 40 links against Stdfs.",
+ "C12": "Later additions: every program of length 4/5 over handles that outlive their file; every call form on a 60-level chain ending in an empty directory; characters whose lower-case form changes byte length; watchdog rule for blocked (dead-locked) calls. Every call form and recursive chmod_b variants on a bushy tree (several non-empty sub-directories per directory). Two links into each other's directory in the bushy tree; a panic during unwinding (imminent abort) is reported from the panic hook. Rounds in which one thread renders the instance while another keeps changing it. 66 000 directories in one parent and spread over three levels: every traversing call, sorted and unsorted, and a recursive chmod return them all.",
+ "C13": "Later additions: wrapper vs unwrapped entry after every follow chain; the matrix on Stdfs vs Vfs::Stdfs twins incl. every handle program of length 4/5; builders executed after a cwd change; files with asymmetric permission classes. A third way for the Stdfs matrix: the associated functions Stdfs::<name> through a delegating adapter; builders split into creation and exec. The history sweep executed the four Memfs ways. Sticky / set-uid modes in the call alphabet; scenario siblings whose byte order differs from name order. The three Stdfs ways also agree on which error a call reports. set_cwd the three Stdfs ways in a child process, also onto a cwd reached through a link. The Stdfs twin parts run under umask 027; a read handle kept open across a rewrite, three ways. Links whose stored target text is absolute (made with std, not through the crate) in the twin scenario; mkfile_m / mkdir_m with modes 0 and 0o7777 among the twin calls.",
+ "C14": "Later additions: every non-UTF-8 byte string over a 5-byte alphabet up to length 6/7. Deep inputs (200-1000 components) and scheme-, home- and variable-looking prefixes. Paths of 66 000 and of exactly 65 536 components with results known by construction (byte comparison).",
+ "C19": "Later additions: the ends of the index type (isize::MIN/MAX and neighbours) for slice and drop. consume() on iterators whose size hint is not exact. take_while_p with a predicate that carries state, driven item by item and through fold. take_while_p over sources too long to collect whole. to_bool on the false values followed by line endings.",
+ "C15": "Later additions: dir() of a path without a parent (the root in any spelling) fails. Scheme look-alikes whose case mappings collide with a scheme; colon lists with white space at entry ends. A second alphabet of characters that are separators or special elsewhere but ordinary here (backslash, 'C:', blank, '*', '?'), exhaustive to length 3 for every one- and two-argument law.",
+ "C16": "Later additions: names with '~' and '$', case-variant names, non-UTF-8 names, paths that exist on disk behind a symlink. Sibling names whose encodings share their first byte(s) (日/本, é/ü), exhaustive to depth 3.",
+ "C17": "Later additions: sequences of four environments inside one process; a variable whose value is not valid UTF-8. The home symbol at every position of absolute, relative and variable-led templates. Memfs::abs and Stdfs::abs refuse what expand() refuses and expand '~' before cleaning. Doubled separators right after the home symbol. Variable values that themselves contain '~'.",
+ "C18": "Later additions: list entries '/', trailing separators, repeated entries; multi-component config names; ids above 2^31; bystander variables (TMPDIR ...). List entries with leading, trailing and only blanks (listed verbatim). A relative candidate directory looked up from a Memfs cwd below the root, with a namesake below the root. getrids also asked from a child process that gave up root. Candidate directories of vfs.config_dir that are symbolic links to directories (Stdfs).",
+ "C20": "Later additions: hand-made create/remove/recreate and dangling-link states also on Stdfs; line-terminator near misses; where a new link points; feasibility rules for creating and removing macros. Unclean absolute spellings ('zz/..' detours) as macro arguments. Directed state with directories whose mode differs from the requested one only above the rwx triplets. A directed state with files whose bytes are not text. The path argument is an expression whose second evaluation would name a path of the opposite existence. read_all! on contents of 80..8200 bytes (character boundaries at and around plausible display caps) that equal / differ from the expectation; every kind macro on a unix socket and on the null device (Stdfs).",
 }
 
 def main():
